@@ -322,6 +322,8 @@ class Run:
                         return None, False, None
                     df = pd.DataFrame(A[:, 1:], index=pd.Index(A[:, 0], name=cols[0]), columns=cols[1:])
                     las.set_data(df)
+                elif names is None and not truncate and self.k % 2:
+                    las.data = A.copy()          # the property setter is documented as equivalent to set_data(array)
                 else:
                     las.set_data(A.copy(), names=list(names) if names is not None else None, truncate=truncate)
             elif kind == "inplace":
